@@ -7,8 +7,10 @@ package btree
 // iterate over whole subtrees) stays with the bounded stand-in. Comments only; compiled only with the tag `verif`.
 
 //@ arith int
+//@ index elt
 //@ property C03
 //
+// ---- slice helpers: exact sequence semantics (what every node-level step is built from) ----
 //@ func items.insertAt
 //@   requires s != nil && 0 <= index && index <= len(deref(s))
 //@   ensures #length len(deref(s)) == old(len(deref(s))) + 1
@@ -16,3 +18,83 @@ package btree
 //@   ensures #placed deref(s)[index] == item
 //@   ensures #after forall j int :: index < j && j < len(deref(s)) ==> deref(s)[j] == old(deref(s)[j-1])
 //@   modifies deref(s), region($alloc), deref(s)[0:cap(deref(s))]
+//@ func items.removeAt
+//@   requires s != nil && 0 <= index && index < len(deref(s))
+//@   ensures #result result == old(deref(s)[index])
+//@   ensures #length len(deref(s)) == old(len(deref(s))) - 1
+//@   ensures #before forall j int :: 0 <= j && j < index ==> deref(s)[j] == old(deref(s)[j])
+//@   ensures #after forall j int :: index <= j && j < len(deref(s)) ==> deref(s)[j] == old(deref(s)[j+1])
+//@   ensures #storage arrid(deref(s)) == old(arrid(deref(s))) && off(deref(s)) == old(off(deref(s))) && cap(deref(s)) == old(cap(deref(s)))
+//@   modifies deref(s), deref(s)[0:cap(deref(s))]
+//@ func items.pop
+//@   requires s != nil && len(deref(s)) > 0
+//@   ensures #result out == old(deref(s)[len(deref(s))-1])
+//@   ensures #length len(deref(s)) == old(len(deref(s))) - 1
+//@   ensures #before forall j int :: 0 <= j && j < len(deref(s)) ==> deref(s)[j] == old(deref(s)[j])
+//@   ensures #storage arrid(deref(s)) == old(arrid(deref(s))) && off(deref(s)) == old(off(deref(s))) && cap(deref(s)) == old(cap(deref(s)))
+//@   modifies deref(s), deref(s)[0:cap(deref(s))]
+//@ func items.truncate
+//@   requires s != nil && 0 <= index && index <= len(deref(s)) && arrid(nilItems) != arrid(deref(s))
+//@   ensures #length len(deref(s)) == index
+//@   ensures #before forall j int :: 0 <= j && j < index ==> deref(s)[j] == old(deref(s)[j])
+//@   ensures #storage arrid(deref(s)) == old(arrid(deref(s))) && off(deref(s)) == old(off(deref(s))) && cap(deref(s)) == old(cap(deref(s)))
+//@   modifies deref(s), deref(s)[0:cap(deref(s))]
+//@   loop 1
+//@     invariant len(deref(s)) == index && arrid(deref(s)) == old(arrid(deref(s))) && off(deref(s)) == old(off(deref(s))) && cap(deref(s)) == old(cap(deref(s)))
+//@     invariant arrid(toClear) == old(arrid(deref(s))) && off(toClear) >= old(off(deref(s))) + index && off(toClear) + len(toClear) == old(off(deref(s))) + old(len(deref(s)))
+//@     invariant forall j int :: 0 <= j && j < index ==> deref(s)[j] == old(deref(s)[j])
+//@ func children.insertAt
+//@   requires s != nil && 0 <= index && index <= len(deref(s))
+//@   ensures #length len(deref(s)) == old(len(deref(s))) + 1
+//@   ensures #before forall j int :: 0 <= j && j < index ==> deref(s)[j] == old(deref(s)[j])
+//@   ensures #placed deref(s)[index] == n
+//@   ensures #after forall j int :: index < j && j < len(deref(s)) ==> deref(s)[j] == old(deref(s)[j-1])
+//@   modifies deref(s), region($alloc), deref(s)[0:cap(deref(s))]
+//@ func children.removeAt
+//@   requires s != nil && 0 <= index && index < len(deref(s))
+//@   ensures #result result == old(deref(s)[index])
+//@   ensures #length len(deref(s)) == old(len(deref(s))) - 1
+//@   ensures #before forall j int :: 0 <= j && j < index ==> deref(s)[j] == old(deref(s)[j])
+//@   ensures #after forall j int :: index <= j && j < len(deref(s)) ==> deref(s)[j] == old(deref(s)[j+1])
+//@   ensures #storage arrid(deref(s)) == old(arrid(deref(s))) && off(deref(s)) == old(off(deref(s))) && cap(deref(s)) == old(cap(deref(s)))
+//@   modifies deref(s), deref(s)[0:cap(deref(s))]
+//@ func children.pop
+//@   requires s != nil && len(deref(s)) > 0
+//@   ensures #result out == old(deref(s)[len(deref(s))-1])
+//@   ensures #length len(deref(s)) == old(len(deref(s))) - 1
+//@   ensures #before forall j int :: 0 <= j && j < len(deref(s)) ==> deref(s)[j] == old(deref(s)[j])
+//@   ensures #storage arrid(deref(s)) == old(arrid(deref(s))) && off(deref(s)) == old(off(deref(s))) && cap(deref(s)) == old(cap(deref(s)))
+//@   modifies deref(s), deref(s)[0:cap(deref(s))]
+//@ func children.truncate
+//@   requires s != nil && 0 <= index && index <= len(deref(s)) && arrid(nilChildren) != arrid(deref(s))
+//@   ensures #length len(deref(s)) == index
+//@   ensures #before forall j int :: 0 <= j && j < index ==> deref(s)[j] == old(deref(s)[j])
+//@   ensures #storage arrid(deref(s)) == old(arrid(deref(s))) && off(deref(s)) == old(off(deref(s))) && cap(deref(s)) == old(cap(deref(s)))
+//@   modifies deref(s), deref(s)[0:cap(deref(s))]
+//@   loop 1
+//@     invariant len(deref(s)) == index && arrid(deref(s)) == old(arrid(deref(s))) && off(deref(s)) == old(off(deref(s))) && cap(deref(s)) == old(cap(deref(s)))
+//@     invariant arrid(toClear) == old(arrid(deref(s))) && off(toClear) >= old(off(deref(s))) + index && off(toClear) + len(toClear) == old(off(deref(s))) + old(len(deref(s)))
+//@     invariant forall j int :: 0 <= j && j < index ==> deref(s)[j] == old(deref(s)[j])
+//
+// ---- the order: ASSUMED of every Item implementation - Less is a strict weak ordering. Stated as: there is a key
+// function kid into the integers with a.Less(b) <==> kid(a) < kid(b) (every strict weak ordering on a countable set has
+// this form); kid(a) == kid(b) is "neither is less": the same key. Less has no side effects.
+//@ assumption btree: Item.Less is a strict weak ordering without side effects (a.Less(b) <==> kid(a) < kid(b) for a key function kid)
+//@ opaque kid(i Item) int
+//@ func Item.Less
+//@   trusted user-implemented order (interface): strict weak ordering, no side effects
+//@   ensures result == (kid(recv) < kid(than))
+//@   modifies
+//
+// sorted(s): the items of a node are non-nil and strictly increasing in the order
+//@ pure sorted(s items) bool = (forall j int :: { s[j] } 0 <= j && j < len(s) ==> s[j] != nil) && (forall a int, b int :: { s[a], s[b] } 0 <= a && a < b && b < len(s) ==> kid(s[a]) < kid(s[b]))
+//
+// find: binary search. found: the index of the item with the same key; otherwise the insertion point (everything
+// before is smaller, everything from it on is larger).
+//@ func items.find
+//@   requires sorted(s) && item != nil
+//@   ensures #range 0 <= index && index <= len(s) && (found ==> index < len(s))
+//@   ensures #found found ==> kid(s[index]) == kid(item)
+//@   ensures #absent !found ==> (forall j int :: { s[j] } 0 <= j && j < index ==> kid(s[j]) < kid(item)) && (forall j int :: { s[j] } index <= j && j < len(s) ==> kid(item) < kid(s[j]))
+//@   ensures #complete (exists j int :: 0 <= j && j < len(s) && kid(s[j]) == kid(item)) ==> found
+//@   modifies
